@@ -449,3 +449,85 @@ Proof.
     rewrite Rmin_left by auto. rewrite E0. split; split; intros; lra.
   - rewrite Rmin_right by lra. split; split; intros; lra.
 Qed.
+
+(* sign as a 3-D point set: inside iff closer than th to the core cylinder *)
+Lemma rho_scale pos p k s : 0 <= k ->
+  v3x s = v3x pos + k * (v3x p - v3x pos) -> v3z s = v3z pos + k * (v3z p - v3z pos) -> rho pos s = k * rho pos p.
+Proof.
+  intros Hk Ex Ez. unfold rho. rewrite Ex, Ez.
+  replace ((v3x pos + k * (v3x p - v3x pos) - v3x pos) * (v3x pos + k * (v3x p - v3x pos) - v3x pos) +
+           (v3z pos + k * (v3z p - v3z pos) - v3z pos) * (v3z pos + k * (v3z p - v3z pos) - v3z pos))
+    with ((k * k) * ((v3x p - v3x pos) * (v3x p - v3x pos) + (v3z p - v3z pos) * (v3z p - v3z pos))) by ring.
+  assert (K2 := Rle_0_sqr k). assert (U := Rle_0_sqr (v3x p - v3x pos)). assert (W := Rle_0_sqr (v3z p - v3z pos)).
+  unfold Rsqr in *.
+  rewrite sqrt_mult by lra. rewrite sqrt_square by lra. reflexivity.
+Qed.
+
+Lemma rho_nonneg pos p : 0 <= rho pos p.
+Proof. apply sqrt_pos. Qed.
+Lemma rho_sq pos p : rho pos p * rho pos p = (v3x p - v3x pos) * (v3x p - v3x pos) + (v3z p - v3z pos) * (v3z p - v3z pos).
+Proof.
+  apply sqrt_sqrt. assert (U := Rle_0_sqr (v3x p - v3x pos)). assert (W := Rle_0_sqr (v3z p - v3z pos)).
+  unfold Rsqr in *. lra.
+Qed.
+
+Theorem rounded_cylinder_sign pos rad th bh p : 0 < th -> 0 <= 2 * rad - th -> 0 <= bh ->
+  (RoundedCylinder pos rad th bh p < 0 <-> rcyl_int pos rad th bh p).
+Proof.
+  intros Hth Hcore Hbh.
+  destruct (rounded_cylinder_sign_rect pos rad th bh p Hth) as [Hs _]. rewrite Hs. clear Hs.
+  unfold rcyl_excess, rcyl_int, rcyl_core. fold (rho pos p).
+  set (dx := rcyl_dx pos rad th p). set (dy := rcyl_dy pos bh p).
+  assert (Edx : dx = rho pos p - (2 * rad - th)) by (unfold dx, rcyl_dx; ring).
+  assert (Hrp := rho_nonneg pos p).
+  split.
+  - (* construct the nearest core point *)
+    intros HE.
+    set (k := if Rle_dec dx 0 then 1 else (2 * rad - th) / rho pos p).
+    assert (Hk : 0 <= k /\ k * rho pos p <= 2 * rad - th /\ (1 - k) * rho pos p = Rmax dx 0 /\ 0 <= 1 - k).
+    { unfold k. destruct (Rle_dec dx 0) as [Hd | Hd].
+      - rewrite Rmax0_zero by auto. repeat split; lra.
+      - assert (Hpos : 0 < rho pos p) by lra. rewrite Rmax0_pos by lra.
+        assert (Ek : (2 * rad - th) / rho pos p * rho pos p = 2 * rad - th) by (field; lra).
+        repeat split.
+        + apply Rmult_le_pos. lra. left. apply Rinv_0_lt_compat. lra.
+        + lra.
+        + replace ((1 - (2 * rad - th) / rho pos p) * rho pos p) with (rho pos p - (2 * rad - th) / rho pos p * rho pos p) by ring.
+          rewrite Ek. lra.
+        + apply Rmult_le_reg_r with (rho pos p). lra.
+          replace ((1 - (2 * rad - th) / rho pos p) * rho pos p) with (rho pos p - (2 * rad - th) / rho pos p * rho pos p) by ring.
+          rewrite Ek. lra. }
+    destruct Hk as [Hk0 [Hk1 [Hk2 Hk3]]].
+    exists (mkV3 (v3x pos + k * (v3x p - v3x pos)) (clamp1 (v3y p) (v3y pos) bh) (v3z pos + k * (v3z p - v3z pos))).
+    split; [split|].
+    + fold (rho pos (mkV3 (v3x pos + k * (v3x p - v3x pos)) (clamp1 (v3y p) (v3y pos) bh) (v3z pos + k * (v3z p - v3z pos)))).
+      rewrite (rho_scale pos p k) by (auto; reflexivity). exact Hk1.
+    + cbn [v3y]. apply clamp1_in. exact Hbh.
+    + eapply Rle_lt_trans; [|exact HE]. right. unfold dist, norm. f_equal.
+      unfold dot, psub; cbn [v3x v3y v3z].
+      assert (Ey : (v3y p - clamp1 (v3y p) (v3y pos) bh) * (v3y p - clamp1 (v3y p) (v3y pos) bh) = Rmax dy 0 * Rmax dy 0).
+      { rewrite <- Rabs_sq. rewrite clamp1_dist by auto. reflexivity. }
+      rewrite Ey, <- Hk2.
+      replace (v3x p - (v3x pos + k * (v3x p - v3x pos))) with ((1 - k) * (v3x p - v3x pos)) by ring.
+      replace (v3z p - (v3z pos + k * (v3z p - v3z pos))) with ((1 - k) * (v3z p - v3z pos)) by ring.
+      assert (R2 := rho_sq pos p).
+      replace ((1 - k) * rho pos p * ((1 - k) * rho pos p)) with ((1 - k) * (1 - k) * (rho pos p * rho pos p)) by ring.
+      rewrite R2. ring.
+  - intros [s [[Hc1 Hc2] Hd]].
+    fold (rho pos s) in Hc1.
+    eapply Rle_lt_trans; [|exact Hd].
+    unfold dist. apply le_norm_of_sq.
+    rewrite sqrt_sqrt by (assert (A1 := Rle_0_sqr (Rmax dx 0)); assert (A2 := Rle_0_sqr (Rmax dy 0)); unfold Rsqr in *; lra).
+    unfold dot, psub; cbn [v3x v3y v3z].
+    assert (L := rho_lipschitz pos p s).
+    assert (Hrs := rho_nonneg pos s).
+    assert (X : Rmax dx 0 * Rmax dx 0 <= (rho pos p - rho pos s) * (rho pos p - rho pos s)).
+    { destruct (Rle_dec dx 0) as [Hd0 | Hd0].
+      - rewrite Rmax0_zero by auto. assert (A := Rle_0_sqr (rho pos p - rho pos s)). unfold Rsqr in A. lra.
+      - rewrite Rmax0_pos by lra. assert (0 < dx) by lra. assert (dx <= rho pos p - rho pos s) by lra. nra. }
+    assert (Y : Rmax dy 0 * Rmax dy 0 <= (v3y p - v3y s) * (v3y p - v3y s)).
+    { rewrite <- (Rabs_sq (v3y p - v3y s)).
+      assert (B := clamp1_best (v3y p) (v3y pos) bh (v3y s) Hc2). fold (rcyl_dy pos bh p) in B. fold dy in B.
+      assert (B0 := Rmax0_nonneg dy). nra. }
+    lra.
+Qed.
